@@ -310,7 +310,7 @@ func checkC01(rt *rapid.T, c c01case) {
 
 func TestC01Block(t *testing.T) {
 	rapid.Check(t, func(rt *rapid.T) {
-		cols, rows := drawBlock(rt, 4)
+		cols, rows := drawBlockWide(rt, 4)
 		c := c01case{
 			cols: cols, rows: rows,
 			rev:  rapid.SampledFrom(blockRevs).Draw(rt, "rev"),
